@@ -45,7 +45,8 @@ def parsedToArr : Parsed → Arr
   | .vec cs => .vec cs
   | .mat _ _ rows => .nd 2 rows.flatten
 
-/-- `np.array(data)` / `str2array(data)`; `none` = not modelled (complex-class strings) -/
+/-- `np.array(other)` / `str2array(other)` as `__add__` / `__radd__` call them (no `try`: an OverflowError of
+    `str2array` escapes); `none` = not modelled (complex-class strings) -/
 def toArr : Data → Option (Except Wire.Err Arr)
   | .arr a => some (.ok a)
   | .str s =>
@@ -54,9 +55,19 @@ def toArr : Data → Option (Except Wire.Err Arr)
     | .err e => some (.error e)
     | .unmodelled => none
 
+/-- the constructor's own conversion: `str2array(data)` inside `try … except OverflowError → ValueError`
+    (`Other` is the model's name for the OverflowError of an integer literal outside the C long range) -/
+def toArrCtor : Data → Option (Except Wire.Err Arr)
+  | .arr a => some (.ok a)
+  | .str s =>
+    match str2array s with
+    | .ok p => some (.ok (parsedToArr p))
+    | .err e => some (.error (if e = .Other then .ValueError else e))
+    | .unmodelled => none
+
 /-- `binary_sequence(data)` -/
 def mk (d : Data) : Option (Except Wire.Err (List Nat)) :=
-  (toArr d).map (fun r => r.bind mkArr)
+  (toArrCtor d).map (fun r => r.bind mkArr)
 
 /-! ### operators; a sequence is the list of its uint8 values -/
 
